@@ -490,7 +490,7 @@ VmTrap vm_core_execute(VmState *vm) {
             if (a.tag == TAG_ENUM) { a = val_int((int64_t)a.as.enum_val); }
             if (b.tag == TAG_ENUM) { b = val_int((int64_t)b.as.enum_val); }
             if (a.tag == TAG_INT && b.tag == TAG_INT) {
-                stack_push(vm, val_int(a.as.i64 + b.as.i64));
+                stack_push(vm, val_int((int64_t)((uint64_t)a.as.i64 + (uint64_t)b.as.i64)));  /* wraps, no signed-overflow UB */
             } else if (a.tag == TAG_FLOAT && b.tag == TAG_FLOAT) {
                 stack_push(vm, val_float(a.as.f64 + b.as.f64));
             } else if (a.tag == TAG_FLOAT && b.tag == TAG_INT) {
@@ -586,7 +586,7 @@ VmTrap vm_core_execute(VmState *vm) {
             if (a.tag == TAG_ENUM) { a = val_int((int64_t)a.as.enum_val); }
             if (b.tag == TAG_ENUM) { b = val_int((int64_t)b.as.enum_val); }
             if (a.tag == TAG_INT && b.tag == TAG_INT) {
-                stack_push(vm, val_int(a.as.i64 - b.as.i64));
+                stack_push(vm, val_int((int64_t)((uint64_t)a.as.i64 - (uint64_t)b.as.i64)));
             } else if (a.tag == TAG_FLOAT && b.tag == TAG_FLOAT) {
                 stack_push(vm, val_float(a.as.f64 - b.as.f64));
             } else if (a.tag == TAG_FLOAT && b.tag == TAG_INT) {
@@ -656,7 +656,7 @@ VmTrap vm_core_execute(VmState *vm) {
             if (a.tag == TAG_ENUM) { a = val_int((int64_t)a.as.enum_val); }
             if (b.tag == TAG_ENUM) { b = val_int((int64_t)b.as.enum_val); }
             if (a.tag == TAG_INT && b.tag == TAG_INT) {
-                stack_push(vm, val_int(a.as.i64 * b.as.i64));
+                stack_push(vm, val_int((int64_t)((uint64_t)a.as.i64 * (uint64_t)b.as.i64)));
             } else if (a.tag == TAG_FLOAT && b.tag == TAG_FLOAT) {
                 stack_push(vm, val_float(a.as.f64 * b.as.f64));
             } else if (a.tag == TAG_FLOAT && b.tag == TAG_INT) {
@@ -815,7 +815,7 @@ VmTrap vm_core_execute(VmState *vm) {
             NanoValue a = stack_pop(vm);
             if (a.tag == TAG_ENUM) { a = val_int((int64_t)a.as.enum_val); }
             if (a.tag == TAG_INT) {
-                stack_push(vm, val_int(-a.as.i64));
+                stack_push(vm, val_int((int64_t)(0 - (uint64_t)a.as.i64)));
             } else if (a.tag == TAG_FLOAT) {
                 stack_push(vm, val_float(-a.as.f64));
             } else {
